@@ -522,6 +522,8 @@ def alias_cases(rng, count):
 # argument forms: coordinate dtypes / ranks / scalars, caller-supplied `alphas` buffers
 # ------------------------------------------------------------------------------------------------
 FORMS = ['i64', 'i32', 'f32', '0d', '2d', '3d', 'f64-strided']
+NARROW_FORMS = ('i16', 'i8', 'u8', 'u16', 'bool')
+DTYPE_FORMS = ['i64', 'i32', 'i16', 'i8', 'u8', 'u16', 'bool', 'f32']
 SCALAR_FORMS = ['pyfloat', 'pyint', 'npfloat']          # only for the routines whose docstring promises scalars (Hermite)
 FORM_ROUTINES = ['fam', 'famseq', 'jder', 'qbfsder', 'q2dder', 'zzqbfs', 'zzqcon', 'zzq2d', 'zern', 'zernseq']
 
@@ -529,10 +531,13 @@ FORM_ROUTINES = ['fam', 'famseq', 'jder', 'qbfsder', 'q2dder', 'zzqbfs', 'zzqcon
 def form_points(case):
     """float64 reference coordinates (1-D) for the routine of the case; integer-valued when the form needs it"""
     rt, form = case['routine'], case['form']
-    integral = form in ('i64', 'i32', 'pyint')
+    integral = form in ('i64', 'i32', 'pyint') + NARROW_FORMS
+    nonneg = form in ('u8', 'u16', 'bool')
     kind = case.get('kind', 'jac')
     if rt in ('fam', 'famseq', 'jder'):
-        if integral:
+        if integral and nonneg:
+            pts = [0, 1, 1]
+        elif integral:
             pts = {'lag': [0, 1, 2], 'he': [-1, 0, 2], 'h': [-1, 0, 2]}.get(kind, [-1, 0, 1])
         else:
             pts = case['pts']
@@ -551,6 +556,8 @@ def as_form(v, form):
         return v.astype(np.int32)
     if form == 'f32':
         return v.astype(np.float32)
+    if form in NARROW_FORMS:
+        return v.astype({'i16': np.int16, 'i8': np.int8, 'u8': np.uint8, 'u16': np.uint16, 'bool': bool}[form])
     if form == '0d':
         return np.array(v.ravel()[0])
     if form == '2d':
@@ -633,7 +640,18 @@ def _cheby_one_shot_witness():
     return False
 
 
-KNOWN = {'cheby-der-seq-one-shot-ns': {'witness': _cheby_one_shot_witness}}
+def _unsigned_witness():
+    P, qp, J = _impl()
+    x = np.array([0, 1, 1], dtype=np.uint8)
+    try:
+        got = np.asarray(P.legendre_der(3, x), dtype=float)
+    except Exception:
+        return True
+    return not np.allclose(got, P.legendre_der(3, x.astype(float)))
+
+
+KNOWN = {'cheby-der-seq-one-shot-ns': {'witness': _cheby_one_shot_witness},
+         'unsigned-coordinates-wrap': {'witness': _unsigned_witness}}
 
 
 def seq_call(case, P, qp, J):
@@ -754,8 +772,10 @@ def pred_forms(case):
     form = case['form']
     v = form_points(case)
     tv = np.array(case['tpts'], dtype=float)[:v.size]
-    if form in ('i64', 'i32', 'pyint'):
+    if form in ('i64', 'i32', 'pyint') + NARROW_FORMS:
         tv = np.round(tv)
+    if form in ('u8', 'u16', 'bool'):
+        tv = np.clip(tv, 0, 1 if form == 'bool' else 6)
     coords = [v] if ncoord == 1 else [v, tv]
     exp = np.array(fn(*[ref_form(c, form) for c in coords]), dtype=float)
     got = np.array(fn(*[as_form(c, form) for c in coords]), dtype=float)
@@ -795,6 +815,32 @@ def form_cases(rng, count, thorough=False):
                 'upts': [float(v) for v in rng.uniform(0.05, 0.95, 3)], 'tpts': [float(v) for v in rng.uniform(0, 6, 3)]}
         out.append(case)
         i += 1
+    return out
+
+
+def dtype_cases(rng, thorough=False):
+    """EVERY derivative entry point x EVERY coordinate dtype (int64 .. int8, unsigned, bool, float32) x low orders (0, 1, 2, ... :
+    the special-cased branches) - systematic, not sampled: the result must be the float64 result on the same points"""
+    kinds = [('he', ()), ('h', ()), ('lag', (0.5,)), ('lag', (0.0,)), ('jac', (0.5, 1.5)), ('jac', (-0.5, -0.5)), ('jac', (0.0, 0.0)),
+             ('legendre', ()), ('cheby1', ()), ('cheby2', ()), ('cheby3', ()), ('cheby4', ())]
+    base = form_cases(rng, 1)[0]
+    out = []
+    for form in DTYPE_FORMS:
+        for kind, params in kinds:
+            for n in ((0, 1, 2, 3, 4, 6) if not thorough else range(0, 9)):
+                out.append(dict(base, routine='fam', form=form, kind=kind, params=list(params), n=n))
+            for ns in ([0, 1, 2, 3], [1], [1, 4], [2, 3, 7]):
+                out.append(dict(base, routine='famseq', form=form, kind=kind, params=list(params), ns=ns))
+        for i, rt in enumerate(['jder', 'qbfsder', 'q2dder', 'zzqbfs', 'zzqcon', 'zzq2d']):
+            for ncs in (1, 2, 4):
+                cs = [0.5 + 0.25 * k for k in range(ncs)]
+                for j in (1, 2):
+                    out.append(dict(base, routine=rt, form=form, cs=cs, cs2=cs[::-1], j=j, m=1 + (ncs + j) % 3, alpha=-0.5, beta=-0.5,
+                                    cm0_none=False))
+        for zn, zm in ((0, 0), (1, 1), (1, -1), (2, 0), (2, 2), (3, -1), (4, 0)):
+            for nrm in (False, True):
+                out.append(dict(base, routine='zern', form=form, zn=zn, zm=zm, norm=nrm))
+        out.append(dict(base, routine='zernseq', form=form, nms=[[0, 0], [1, 1], [1, -1], [2, 0]], norm=True))
     return out
 
 
@@ -1511,6 +1557,15 @@ def correspondence(ctx):
     # ------------------------------------------------ coordinate dtypes / ranks / scalars; caller-supplied alphas buffers
     for case in form_cases(rng, ctx.scale(500, 5000)):
         ctx.case('coords', case, nontrivial=True, tag=f'{case["routine"]}/{case["form"]}')
+        run_pred('coords', case)
+    for case in dtype_cases(rng, ctx.thorough):
+        ctx.case('coords', case, nontrivial=True, tag=f'{case["routine"]}/{case.get("kind", "")}/{case["form"]}/dtype')
+        if case['form'] in ('u8', 'u16'):
+            # unsigned coordinates wrap around in `x - 1`, `2 - 4 * x`, `-x` (value routines included): known finding, counted
+            ok_, detail_ = pred_safe(case, ctx)
+            if not ok_:
+                ctx.filtered_known['unsigned-coordinates-wrap'] += 1
+            continue
         run_pred('coords', case)
     for case in buffer_cases(rng, ctx.scale(120, 1200)):
         ctx.case('buffer', case, nontrivial=True, tag=f'{case["routine"]}/{case["fill"]}')
